@@ -114,10 +114,16 @@ type hpW struct {
 	// generation profile (C15): in some runs keep Update of an existing key away from iterators
 	// that are under way (DESIGN.md §5 suspects it is not fail-fast)
 	avoidUpdate bool
+	// coarse: distinct priority values may be equivalent under the run's order
+	coarse bool
 }
 
 // less is the order of the run on priorities.
 func (w *hpW) less(a, b int) bool {
+	if w.coarse {
+		// a coarse order: priorities 2j and 2j+1 are distinct values that tie
+		a, b = a>>1, b>>1
+	}
 	if w.order&1 == 1 {
 		return a > b
 	}
@@ -142,16 +148,8 @@ func (w *hpW) pickPrio(cur int, lesser bool, dflt int) int {
 
 // minimal reports whether no held element has a priority less than p.
 func (w *hpW) minimal(p int) bool {
-	if w.order&1 == 1 {
-		for q := p + 1; q < w.nPrio; q++ {
-			if w.cnt[q] > 0 {
-				return false
-			}
-		}
-		return true
-	}
-	for q := 0; q < p; q++ {
-		if w.cnt[q] > 0 {
+	for q := 0; q < w.nPrio; q++ {
+		if w.cnt[q] > 0 && w.less(q, p) {
 			return false
 		}
 	}
@@ -1104,6 +1102,7 @@ func heapWorld(r *R) {
 	maxOps := sizes[r.Choose(len(sizes), "history-len")]
 	phaseMax := []int{6, 30, 150, 600}[r.Choose(4, "phase-max")]
 	w.order = r.Choose(4, "order")
+	w.coarse = r.Choose(3, "coarse-priorities") == 2
 	w.nPrio = []int{3, 1, 2, 5, 16, 64}[r.Choose(6, "priorities")]
 	w.cnt = make([]int, w.nPrio)
 	nPhases := hpPhChurn + 1
